@@ -88,11 +88,19 @@ impl ReadableStorageTraits for MemoryStore {
             let data = data.read();
             let mut out = Vec::with_capacity(byte_ranges.len());
             for byte_range in byte_ranges {
-                let start = usize::try_from(byte_range.start(data.len() as u64)).unwrap();
-                let end = usize::try_from(byte_range.end(data.len() as u64)).unwrap();
-                if end > data.len() {
-                    return Err(InvalidByteRangeError::new(*byte_range, data.len() as u64).into());
+                // Validate before computing start/end, which subtract/slice unchecked
+                let len = data.len() as u64;
+                let valid = match byte_range {
+                    ByteRange::FromStart(offset, length) => offset
+                        .checked_add(length.unwrap_or(0))
+                        .is_some_and(|end| end <= len),
+                    ByteRange::Suffix(length) => *length <= len,
+                };
+                if !valid {
+                    return Err(InvalidByteRangeError::new(*byte_range, len).into());
                 }
+                let start = usize::try_from(byte_range.start(len)).unwrap();
+                let end = usize::try_from(byte_range.end(len)).unwrap();
                 let bytes = data[start..end].to_vec();
                 out.push(bytes.into());
             }
